@@ -10,7 +10,7 @@ import numpy as np
 from vlib import caseio, gen
 
 ID = "C12"
-COQ_TARGETS = ["C12_Extract.vo", "C12_Proofs.vo", "C12_ProofsKF.vo"]
+COQ_TARGETS = ["C12_Extract.vo", "C12_Proofs.vo", "C12_ProofsKF.vo", "C12_ProofsSym.vo", "C12_Regress.vo"]
 COQ_PREFIXES = ["C12", "C01"]
 EXTRACTED = "C12_model"
 DRIVER = "drv_C12.ml"
@@ -19,7 +19,10 @@ VARIANTS = {"quick": ["assert"], "thorough": ["assert", "asan"]}
 AXIOMS_ALLOWED = []
 REQUIRED_THEOREMS = ["C12_kf_identity", "C12_ukf_identity", "C12_sukf_identity", "C12_bootstrap_identity",
                      "C12_gpf_identity", "C12_likelihood_reports_failure", "C12_sis_skips_correction",
-                     "C12_no_fault_kf_is_C01", "C12_gpf_inner_failure_refuted", "C12_kf_stale_likelihood_refuted"]
+                     "C12_no_fault_kf_is_C01", "C12_kf_call_log", "C12_ukf_additive_call_log",
+                     "C12_kf_likelihood_after_failure_reports_failure", "C12_ukf_likelihood_after_failure_reports_failure",
+                     "C12_sukf_likelihood_after_failure_reports_failure",
+                     "C12_gpf_inner_failure_refuted", "C12_gpf_transient_inner_failure_refuted"]
 TIMEOUT = 1500
 
 SITES = "MPINFL"
@@ -45,7 +48,10 @@ GAUSS_MEMBERS = {"kf", "ukf_gen", "ukf_add", "sukf"}      # classes whose getLik
 ADDITIVE_UT = {"ukf_add", "gpf_ukfadd_gl", "gpf_ukfadd_custom"}
 GOOD = "000000"
 
-RULE = ("per class every subset of the enumerated failing calls (2^4, 2^5 for gpf_kf_custom) x sequences [p], [good,p], [good,p,good] x random "
+RULE = ("per class every subset of the enumerated failing calls (2^4, 2^5 for gpf_kf_custom) x sequences [p], [good,p], [good,p,good] "
+        "(thorough: also [p,good,p]) x 3 (thorough 12) random beliefs; for GPF over GaussianLikelihood additionally every pair "
+        "(subset seen by the wrapped correction, subset seen by the likelihood); SUKF also with a measurement size that is not a multiple "
+        "of the sub-size; "
         "beliefs: n 1..4, m 1..3, components 1..4 (N = 2..6 particles for the particle classes), SPD covariances, arbitrary weights, "
         "unrelated previous content of the output object (other component count when the first step fails); "
         "non-trivial = at least one consulted call fails in some step; distinct by (class, pattern sequence, n, m, components)")
@@ -59,9 +65,9 @@ ASSUMPTIONS = ["a measurement model reports unavailability only through the vali
                "getNoiseCovarianceMatrix / freeze, a likelihood model only through the flag of likelihood (no exceptions)",
                "the fault pattern is a function of the call site (all calls of one site within a step fail or succeed together)"]
 
-COUNTS = {"quick": 1, "thorough": 6}      # random beliefs per (class, pattern, sequence form)
+COUNTS = {"quick": 3, "thorough": 12}      # random beliefs per (class, pattern, sequence form)
 
-STATS = {"c14_additive_ut_postprocess_assert": 0, "c14_sites": {}, "steps_checked_identity": 0, "stale_likelihood_steps": 0}
+STATS = {"steps_checked_identity": 0, "likelihood_failure_checked_after_success": 0}
 
 
 # ------------------------------------------------------------------ generation
@@ -97,7 +103,7 @@ def make_case(rng, cid, kind, pats, dims=None, sub=None, outcomps=None):
     if kind == "sukf" and sub is None:
         sub = rng.choice([d for d in range(1, m + 1) if m % d == 0])
     consulted = CONSULTED[kind]
-    faulty = any(fails(p, ENUMERATED[kind]) for p in pats)
+    faulty = any("1" in p for p in pats)
     risky = 1 if (faulty and ("ukf" in kind)) else 0
     oc = comps if outcomps is None else outcomps
     meta = {"n": n, "m": m, "comps": comps, "steps": len(pats), "sub": sub or 1, "risky": risky, "outcomps": oc,
@@ -152,6 +158,18 @@ def generate(rng, tier):
                             c = make_case(rng, cid, kind, seq, dims=(int(c.meta["n"]), int(c.meta["m"]), comps),
                                           sub=int(c.meta["sub"]), outcomps=comps + rng.choice([1, 2]))
                         cases.append(c); cid += 1
+    # GPF over the shipped GaussianLikelihood, two-phase patterns: every subset of the calls made by the wrapped
+    # correction x every subset of the calls made by the likelihood
+    for kind in ("gpf_kf_gl", "gpf_ukfgen_gl", "gpf_ukfadd_gl"):
+        for r1 in range(5):
+            for s1 in itertools.combinations("MPIN", r1):
+                for r2 in range(5):
+                    for s2 in itertools.combinations("MPIN", r2):
+                        if s1 == s2:
+                            continue
+                        p = bits(s1) + bits(s2)
+                        for seq in ([p],) if tier == "quick" else ([p], [GOOD, p]):
+                            cases.append(make_case(rng, cid, kind, seq)); cid += 1
     # SUKF: measurement size not a multiple of the sub-size, with and without other faults
     for p in [GOOD, bits("M"), bits("P"), bits("I"), bits("N")]:
         for seq in ([p], [GOOD, p]):
@@ -183,16 +201,10 @@ def hazard_shape(c):
 
 
 def expected_crash(c, model):
-    """(step, phase) at which the model predicts an out-of-bounds / size-mismatch access under Eigen assertions, or None.
-    correct: the additive unscented transform post-processes GaussianMixture() after a failed evaluation (C14's site);
-    lik: getLikelihood evaluates stale innovations_ against the default predicted_meas_ left by a failed call."""
-    kind, pats = c.kind, c.get("pat")
-    for k, p in enumerate(pats):
-        if kind in ADDITIVE_UT and p[0] == "0" and p[1] == "1" and hazard_shape(c):
-            return (k, "correct")
-        if kind in ("ukf_gen", "ukf_add") and model is not None and hazard_shape(c):
-            if model.get("lik_valid%d" % k) == 1 and "pmDefault" in model.get("lik%d" % k)[0]:
-                return (k, "lik")
+    """(step, phase) at which the model predicts an abnormal end.  None at HEAD: the two places that could abort
+    (additive unscented transform post-processing GaussianMixture() after a failed evaluation; getLikelihood evaluating
+    stale innovations_ against a default predicted_meas_) were repaired by 49d7ed0 / 201e1b4 and the model follows the
+    repaired code (the old transcription is C12_Regress.v)."""
     return None
 
 
@@ -206,6 +218,26 @@ def crash_point(impl):
     if impl.has("lik_begin%d" % k):
         return (k, "lik")
     return (k, "correct")
+
+INNER_CONSULTED = {"kf": "MPIN", "ukfgen": "MPI", "ukfadd": "MPI"}
+
+
+def unusable(c, p):
+    """(tag, cannot_use, lik_must_fail): which calls the class honours fail in step pattern p.
+    For GPF the pattern may have two phases (wrapped correction / likelihood)."""
+    kind = c.kind
+    p1, p2 = p[:6], (p[6:12] if len(p) >= 12 else p[:6])
+    bit = lambda q, s: q[SITES.index(s)] == "1"
+    if kind.startswith("gpf_"):
+        _, inner, lik = kind.split("_")
+        fi = "".join(s for s in INNER_CONSULTED[inner] if bit(p1, s))
+        fl = "".join(s for s in ("L" if lik == "custom" else "MPIN") if bit(p2, s))
+        return "fail=%s/%s" % (fi or "-", fl or "-"), bool(fi or fl), bool(fl)
+    failing = "".join(s for s in CONSULTED[kind] if bit(p1, s))
+    mismatch = kind == "sukf" and int(c.meta["m"]) % int(c.meta["sub"]) != 0
+    tag = "fail=%s" % (failing or ("size-mismatch" if mismatch else "none"))
+    lik_sites = "L" if kind.endswith("_custom") else "MPIN"
+    return tag, bool(failing) or mismatch, any(bit(p1, s) for s in lik_sites)
 
 
 def compare(c, impl, model):
@@ -294,23 +326,17 @@ def oracle(c, impl, model):
     had_success = False
     for k in range(last):
         ks, p = str(k), pats[k]
-        failing = "".join(s for s in cons if p[SITES.index(s)] == "1")
-        mismatch = kind == "sukf" and int(c.meta["m"]) % int(c.meta["sub"]) != 0
-        cannot_use = bool(failing) or mismatch
-        tag = "fail=%s" % (failing or ("size-mismatch" if mismatch else "none"))
+        tag, cannot_use, lik_must_fail = unusable(c, p)
         full = got is None or k < got[0]
         if cannot_use:
             STATS["steps_checked_identity"] += 1
-            custom = kind.endswith("_custom")
-            lik_sites = "L" if custom else "MPIN"          # calls whose failure the likelihood model itself reports
-            lik_must_fail = any(p[SITES.index(s)] == "1" for s in lik_sites)
             if kind == "gl":
                 if impl.get("lik_valid" + ks) != 0:
                     v.append(("C12:gl:value-reported:%s" % tag, "GaussianLikelihood reported a value"))
             else:
                 if impl.get("ident" + ks) != 1:
                     parts = [q for q in ("mean", "cov", "w", "shape", "state") if impl.get("ident_%s%s" % (q, ks)) == 0]
-                    if kind.startswith("gpf_") and custom and not lik_must_fail:
+                    if kind.startswith("gpf_") and not lik_must_fail:
                         # refuted on the model: C12_gpf_inner_failure_refuted
                         sig = "C12:%s:belief-changed:wrapped-correction-fails+likelihood-valid" % kind
                     else:
@@ -318,16 +344,13 @@ def oracle(c, impl, model):
                     v.append((sig, "step %d (%s): corrected belief differs from the predicted one in %s" % (k, tag, parts)))
                 if impl.get("pred_unchanged" + ks) != 1:
                     v.append(("C12:%s:predicted-belief-modified:%s" % (kind, tag), "step %d" % k))
+                if full and had_success and kind in GAUSS_MEMBERS:
+                    STATS["likelihood_failure_checked_after_success"] += 1
                 if full and impl.get("lik_valid" + ks) == 1:
                     if kind in GAUSS_MEMBERS:
-                        STATS["stale_likelihood_steps"] += 1
-                        if had_success:
-                            # refuted on the model: C12_kf/ukf/sukf_stale_likelihood_refuted
-                            sig = "C12:%s:stale-likelihood:failed-correction-after-success" % kind
-                        else:
-                            sig = "C12:%s:likelihood-valid-after-unusable-measurement:%s" % (kind, tag)
-                        v.append((sig, "step %d (%s): getLikelihood() reports a valid likelihood (the previous correction's) although "
-                                       "this correction could not use the measurement" % (k, tag)))
+                        sig = "C12:%s:stale-likelihood:%s" % (kind, "failed-correction-after-success" if had_success else "fresh-object")
+                        v.append((sig, "step %d (%s): getLikelihood() reports a valid likelihood although this correction could not "
+                                       "use the measurement" % (k, tag)))
                     elif lik_must_fail:
                         v.append(("C12:%s:likelihood-valid-after-unusable-measurement:%s" % (kind, tag), "step %d" % k))
         elif full and kind != "gl" and impl.get("lik_valid" + ks) == 1:
@@ -335,18 +358,10 @@ def oracle(c, impl, model):
     if got is not None:
         k, phase = got
         p = pats[k]
-        if phase == "correct" and kind in ADDITIVE_UT and p[0] == "0" and p[1] == "1" and impl.get("crash_kind") == ["eigen-assert"]:
-            # C14's finding (additive unscented transform post-processes GaussianMixture() after a failed evaluation):
-            # recorded, not judged here
-            STATS["c14_additive_ut_postprocess_assert"] += 1
-            key = "%s %s" % (impl.get("crash_entry")[0], impl.get("crash_where")[0].split("/")[-1])
-            STATS["c14_sites"][key] = STATS["c14_sites"].get(key, 0) + 1
-        elif phase == "lik" and kind in GAUSS_MEMBERS:
-            failing = "".join(s for s in cons if p[SITES.index(s)] == "1")
-            v.append(("C12:%s:stale-likelihood:getLikelihood-aborts-after-failed-predictedMeasure" % kind,
-                      "step %d (fail=%s): getLikelihood() after a failed correction that followed a successful one evaluates the old innovations_ "
-                      "against the default-constructed predicted_meas_: %s %s at %s"
-                      % (k, failing, impl.get("crash_kind"), impl.get("crash_cond"), impl.get("crash_where"))))
+        if phase == "lik" and kind in GAUSS_MEMBERS:
+            v.append(("C12:%s:stale-likelihood:getLikelihood-aborts" % kind,
+                      "step %d (%s): getLikelihood() after a correction that could not use the measurement ended abnormally: %s %s at %s"
+                      % (k, unusable(c, p)[0], impl.get("crash_kind"), impl.get("crash_cond"), impl.get("crash_where"))))
         else:
             v.append(("C12:%s:crash:%s" % (kind, impl.get("crash_entry", ["?"])[0]),
                       "step %d: %s %s at %s" % (k, impl.get("crash_kind"), impl.get("crash_cond"), impl.get("crash_where"))))
@@ -355,7 +370,7 @@ def oracle(c, impl, model):
 
 def nontrivial(c):
     pats = c.get("pat")
-    if any(fails(p, CONSULTED[c.kind]) for p in pats) or (c.kind == "sukf" and int(c.meta["m"]) % int(c.meta["sub"]) != 0):
+    if any(unusable(c, p)[1] for p in pats):
         return (c.kind, c.meta["seq"], c.meta["n"], c.meta["m"], c.meta["comps"])
     return None
 
@@ -367,17 +382,17 @@ def histogram(cases):
     seqlen = {}
     for c in cases:
         seqlen[c.meta["steps"]] = seqlen.get(c.meta["steps"], 0) + 1
-    return {"class": h, "steps": seqlen, "deferred_to_C14": {"additive_ut_postprocess_on_invalid_evaluation": STATS["c14_additive_ut_postprocess_assert"],
-                                                              "sites": STATS["c14_sites"]},
+    return {"class": h, "steps": seqlen,
             "steps_with_unusable_measurement_checked": STATS["steps_checked_identity"],
-            "stale_likelihood_steps": STATS["stale_likelihood_steps"]}
+            "getLikelihood_failure_checked_after_an_earlier_success": STATS["likelihood_failure_checked_after_success"]}
 
 
 LEVEL_TEXT = ("Proof: the control skeletons of KFCorrection, UKFCorrection (both constructors, with the measurement overloads of the unscented "
               "transform), SUKFCorrection, GaussianLikelihood, BootstrapCorrection, GPFCorrection and SIS::filtering_step are proved, for every "
               "fault pattern (a function from call site to bool), every belief and every numerical routine (function parameters), to return the "
-              "whole predicted object whenever a call the class honours reports unavailability, with the exact call log; with no fault the KF "
-              "skeleton is C01's kf_correct. Two statements are refuted on the faithful model with witnesses (stale getLikelihood of the Gaussian "
-              "corrections; GPFCorrection with a likelihood model that does not notice the wrapped correction's failure).")
+              "whole predicted object whenever a call the class honours reports unavailability, with the exact call log (always the prefix up to the "
+              "first failing call), and getLikelihood to report failure after any such correction whatever preceded it; with no fault the KF "
+              "skeleton is C01's kf_correct. One statement is refuted on the faithful model with witnesses and is a known finding (GPFCorrection "
+              "does not notice that the wrapped correction could not use the measurement when the likelihood model reports a value).")
 LEVEL_NOTE = ("Trusted: Coq kernel, extraction + driver, the harness's fault-injecting doubles; numerical routines are abstract here (C01/C04/C05/C08); "
               "the tie to the code is sampled over all subsets of failing calls per class x random beliefs x call sequences.")
